@@ -102,7 +102,7 @@ Definition pick_mgr (st : sstate) (m : nat) : option (nat * mgr) :=
 (* one operation; returns the new state and the result reported by an acquire *)
 Definition sstep (fx : bool) (st : sstate) (o : sop) : sstate * list Z :=
   match o with
-  | SNew is_tm level => (set_mgrs st (mgrs st ++ [Mg true is_tm 1 (Sh level 1 1 0 0 None [])]), [])
+  | SNew is_tm level => (set_mgrs st (mgrs st ++ [Mg true is_tm 1 (Sh level 1 1 0 0 None [] [] BULK_FREE_N)]), [])
   | SAcq via k m =>
       match pick_mgr st m with
       | None => (st, [])
